@@ -111,4 +111,6 @@ def generate(rng, tier):
                 v = realm_variants(rng, realm or 'example.org') if rng.random() < 0.6 else rng.choice(['example.org', '*.example', 'test.local', 'xlocal'])
                 cert.append('other:%s:%s' % (o, hx(v.encode('latin-1'))))
         ops.append('op cert %s | %s' % (' '.join(conf), ' '.join(cert)))
-    return [(cid, ['cfg nopipe'] + l) for cid, l in batch(ops, 'cert', 50)]
+    import focus
+    # the name-check options of a dynamically discovered server: template block + block printed by the lookup command
+    return [(cid, ['cfg nopipe'] + l) for cid, l in batch(ops, 'cert', 50)] + focus.dynext_cases(rng, 200 if tier == 'thorough' else 12)
